@@ -1,4 +1,5 @@
 """C16 - evaluation is a pure function of the program text."""
+import re
 import os, subprocess
 import vlib, runcorr, progcheck
 
@@ -54,7 +55,9 @@ def key(o):
 def run(ctx, log):
     rng = ctx.rng
     srcs, _ = progcheck.gen_sources(ctx, 300 if ctx.quick else 3000, max_depth=3)
-    progs = DIRECTED + srcs
+    # thousands of distinct names over the life of the process (every evaluation brings its own)
+    many = ["; ".join("stel n%d_%d = %d" % (k, j, j) for j in range(60)) + "; " + " + ".join("n%d_%d" % (k, j) for j in range(60)) for k in range(90 if ctx.quick else 400)]
+    progs = DIRECTED + srcs + many
     lines = ["20000 " + vlib.hexs(s) for s in progs]
     base = vlib.nlh("eval", lines, tag="c16b")
     for s, o in zip(progs, base):
@@ -96,6 +99,17 @@ def run(ctx, log):
             ctx.violate("concurrent evaluation from 16 threads crashed (exit %d)" % p.returncode, source="(whole batch, seed %d)" % seed, observed=p.stderr[-300:])
             continue
         compare("concurrently from 16 threads (seed %d)" % seed, got)
+    # a text that takes seconds gives the same answer however fast the build is (nothing depends on elapsed time)
+    slow = ["stel i = 0; stel t = 0; zolang i < %d { i += 1; t = t + i %% 7 } t" % n for n in ((3000000,) if ctx.quick else (3000000, 20000000))]
+    s_rel = vlib.nlh("eval", ["2000000000 " + vlib.hexs(x) for x in slow], tag="c16s", timeout=1200)
+    s_dbg = vlib.nlh("eval", ["2000000000 " + vlib.hexs(x) for x in slow], tag="c16sd", profile="debug", timeout=2400)
+    for x, a_, b_ in zip(slow, s_rel, s_dbg):
+        ctx.seen(("slow", x))
+        ctx.count("context:slow-text-both-builds")
+        n_ = int(re.search(r"i < (\d+)", x).group(1))
+        want = "OK i%d" % sum(i % 7 for i in range(1, n_ + 1))
+        if progcheck.head(a_) != want or progcheck.head(b_) != want:
+            ctx.violate("a long-running text does not give its value in both builds", source=x, observed="release %s / debug %s" % (progcheck.head(a_)[:60], progcheck.head(b_)[:60]), expected=want)
     # (d) debug build
     dbg = vlib.nlh("eval", lines, tag="c16d", profile="debug", timeout=900)
     compare("by the debug build", dbg)
